@@ -173,9 +173,27 @@ def _phf_prelude(stmts: List[dict]) -> Tuple[Optional[List[Tuple[str, H.Ctor]]],
     return entries, static_ty
 
 
-def group_fns(g: DeriveGroup) -> Dict[str, dict]:
-    """def path -> fn record of every fn generated by the derive (helpers the normaliser may inline)."""
+def group_fns(g: DeriveGroup, info: Optional[EnumInfo] = None) -> Dict[str, dict]:
+    """def path -> fn record of every fn generated by the derive (helpers the normaliser may inline); under the reserved keys
+    `__discs__` / `__items__` the enum's discriminants (rustc's) and the const / static items the derive generated."""
     out = {}
+    items = {}
+    for it in g.items:
+        if it.get("item") in ("const", "static") and it.get("name") and it.get("body"):
+            items[it["name"]] = it
+    if items:
+        out["__items__"] = items
+    if info is not None:
+        out["__adt__"] = info.def_path
+    if info is not None and info.sem:
+        discs = {}
+        for v in info.sem.get("variants", []):
+            try:
+                discs[v["name"]] = int(v["disc"])
+            except (KeyError, TypeError, ValueError):
+                pass
+        if discs:
+            out["__discs__"] = discs
     for it in g.items:
         if it.get("item") == "impl":
             for a in it.get("assoc", []):
@@ -256,24 +274,37 @@ def parse_table_tree(info: EnumInfo, g: DeriveGroup) -> ParseTable:
     err = assoc_of(imp, "Err", "type")
     if f is None or err is None:
         raise Unrecognised("FromStr impl lacks from_str / Err")
-    fns = group_fns(g)
+    fns = group_fns(g, info)
     fns.pop(f.get("def"), None)
     b = SE.Builder(f, {0: "str"}, fns)
     tree = b.tree()
-    ordered = [a for a in b.atoms_in_source_order() if a[0] in ("seq", "sci")]
+    ordered = []
+    for a in b.atoms_in_source_order():
+        if a[0] in ("seq", "sci"):
+            ordered.append(a)
+        elif a[0] == "scisuf":
+            ordered.append(("sci", a[1] + a[2], a))
     lens = [a for a in SE.atoms(tree) if a[0] == "slen"]
     arms: List[ParseArm] = []
     phf_entries: Optional[List[Tuple[str, H.Ctor]]] = [] if b.phf_keys else None
     for a in ordered:
         lit = a[1]
-        n = len(lit.encode("utf-8"))
+        if len(a) == 3:
+            # prefix compared exactly, rest ignoring case: not expressible as one table arm unless the prefix has no letters
+            if any(c.isascii() and c.isalpha() for c in a[2][1]):
+                raise Unrecognised("arm compares a prefix exactly and the rest ignoring case")
+            a = a[2]
 
-        def truth(x, a=a, n=n):
+        def truth(x, a=a, lit=lit):
             if x == a:
                 return True
-            if x[0] == "slen":
-                return SE._cmp(n, x[1], x[2])
-            return False
+            if x[0] in ("seq", "sci", "scisuf"):
+                # a suffix comparison that amounts to this very literal counts as the arm itself
+                if x[0] == "scisuf" and a[0] == "sci" and x[1] + x[2] == lit:
+                    return True
+                return False
+            # pre-checks (length, first byte, prefix) are evaluated on the arm's own literal: the arm is what the literal reaches
+            return SE.holds(x, {"s": lit})
         o = classify_parse_leaf(SE.run_with(tree, truth))
         if o[0] != "variant":
             continue        # an atom that only guards a fall-through (the comparison below still covers it)
@@ -819,13 +850,16 @@ def int_table_tree(fn: dict, int_param: int, fns: Optional[Dict[str, dict]] = No
     b = SE.Builder(fn, {int_param: "int"}, fns2)
     tree = b.tree()
     ats = SE.atoms(tree)
-    bad = [a for a in ats if a[0] != "int"]
+    bad = [a for a in ats if a[0] not in ("int", "intx")]
     if bad:
         raise Unrecognised("%s branches on something other than its integer parameter: %r" % (fn["name"], bad[0]))
     keys = []
     for a in b.atoms_in_source_order():
         if a[0] == "int" and a[1] == "==" and a[2] not in keys:
             keys.append(a[2])
+    if any(a[0] == "intx" for a in ats):
+        # arithmetic on the parameter: no distinguished constants -- every evaluated point is a row
+        keys = [n for n in SE.int_reps(ats, extra, lo, hi)]
     rows = []
     for k in keys:
         leaf = SE.run(tree, {"int": k})
